@@ -274,14 +274,18 @@ def WIRING(sizes=("five", "six", "seven"), validated=("five", "six", "seven")):
         T = n.capitalize()
         out.append(H(f"c04_validated_{n}", functions=[f"<{T} as HandRanker>::hand_rank_value_validated", f"<{T} as HandValidator>::is_valid"] + (["evaluate::five_cards"] if n == "five" else []),
                      domain=WORDS, bound="whole input type; unwind 9", timeout=1800,
-                     assume=[f"<{T} as HandRanker>::hand_rank_value_and_hand replaced by an arbitrary function with a call counter"],
-                     draws="a:u32*N, fv:u16, fh:u32*5"))
+                     assume=[f"<{T} as HandRanker>::hand_rank_value_and_hand replaced by an arbitrary function with a call counter",
+                             "a priming call of the validated entry point on another arbitrary array comes first (history of length 2)",
+                             "native replay (and the fallback after an inconclusive solver run) also runs the nasty-word / extreme-hand / near-miss-after-valid family on the real code"],
+                     draws="a:u32*N, fv:u16, fh:u32*5, a0:u32*N, fv0:u16", fallback=[1, 2, 3, 4, 5, 6, 7, 9, 1, 1, 1, 1, 1, 8, 8, 8, 8, 8, 8, 8, 3]))
     return out
 
 # ---------------------------------------------------------------- C01
 C02_HIST_FIVE = H("c01_five_history", timeout=1500, functions=["Five::{hand_rank_value, hand_rank_value_and_hand, hand_rank_value_validated, hand_rank} on three hands, then on a fourth"],
       domain="four five-card hands of distinct real cards (any may coincide)", bound="histories of length 4 above the five-card primitive; unwind 9",
       assume=["the five-card primitive is an arbitrary function with pre-drawn results (wiring stub): state kept above it (memo, cache) is exposed"], draws="((r,s)*7, fv:u16)*4")
+C05_FIND_HIST = H("c05_find_history", solver="kissat", timeout=1800, functions=["Five::find_in_products called four times"],
+      domain="two arbitrary usize keys, then the largest and the smallest product", bound="histories of length 4; unwind 14", draws="k0:usize, k1:usize")
 TABLE["C01"] = [
     H("c01_flush_any_order", cross_solver=True, solver="kissat", timeout=1800, functions=EVAL, domain="five distinct cards of one suit, any slot order (5,148 hands x 120 orders)", bound="whole domain; unwind 14", draws="(r,s)*5"),
     H("c01_distinct_any_order", solver="kissat", timeout=1800, functions=EVAL, domain="five distinct cards, five distinct ranks, not one suit, any slot order (1,312,272 hands x 120)", bound="whole domain; unwind 14", draws="(r,s)*5"),
@@ -293,7 +297,7 @@ TABLE["C01"] = [
     H(f"c01_paired_any_order_r{j:02d}", tier=f"seeded:p4:{j}:13", solver="kissat", timeout=2700, functions=EVAL,
       domain=f"five distinct cards with a repeated rank, ANY slot order, partition: rank of slot 0 is {j}", bound="whole partition; unwind 14", draws="(r,s)*5")
     for j in range(13)
-] + WIRING(sizes=("five",), validated=("five",)) + [C02_HIST_FIVE] + [
+] + WIRING(sizes=("five",), validated=("five",)) + [C02_HIST_FIVE, C05_FIND_HIST] + [
     H("c01_five_history_distinct", tier="thorough", solver="kissat", timeout=4000, functions=EVAL + ["Five::hand_rank_value_validated", "Five::is_valid"],
       domain="two hands of five distinct cards with five distinct ranks (flush or not), any slot orders: rank the first (both entry points), then the second",
       bound="histories of length 2 on the table path of the REAL evaluator; unwind 14", draws="(r,s)*5, (r,s)*5"),
@@ -361,7 +365,7 @@ PROPERTY_META["C05"] = {
 }
 
 S5NOTE = ["S5: <Five as HandRanker>::hand_rank_value_and_hand replaced by an uninterpreted evaluator: a nondeterministic table of values in 1..=7462 indexed by the SET of "
-          "base cards in the five slots (order-invariant, functional); reaching it with anything but five distinct base cards is a failure (strict). "
+          "base cards (the harness's 6, 7 or 8 symbolic cards) in the five slots (order-invariant, functional); reaching it with anything but five distinct base cards is a failure (strict). "
           "The real evaluator has these three properties by C01."]
 SIXSEVEN = ["hand_rank_value_and_hand", "HandRanker::hand_rank_value (default)", "Permutator::five_from_permutation", "FIVE_CARD_PERMUTATIONS", "Five::sort (core sort_unstable + reverse)"]
 # ---------------------------------------------------------------- C02 / C03
@@ -387,14 +391,22 @@ C02_HIST = [
       domain="four five-card hands of distinct real cards (any may coincide)", bound="histories of length 4 above the five-card primitive (the primitive itself: c01_five_history_distinct, thorough); unwind 9",
       assume=HISTNOTE, draws="((r,s)*7, fv:u16)*4"),
 ]
-TABLE["C02"] = C02_ABS + C02_HIST + C02_REAL
+C02_REPEAT = [
+    H("c03_six_repeat", timeout=1500, unwind=66, functions=["Six::hand_rank_value_and_hand called five times (X, Y, X, X, Y)", "five_from_permutation", "Five::sort"],
+      domain="two overlapping six-card hands X = cards 0..5, Y = cards 1..6 of seven distinct real cards; S5 evaluator over the seven-card base",
+      bound="histories of length 5 over two hands; unwind 66", assume=S5NOTE, draws="(r,s)*8, then T"),
+    H("c03_seven_repeat", tier="thorough", timeout=3000, unwind=130, functions=["Seven::hand_rank_value_and_hand called five times (X, Y, X, X, Y)", "five_from_permutation", "Five::sort"],
+      domain="two overlapping seven-card hands over eight distinct real cards; S5 evaluator over the eight-card base",
+      bound="histories of length 5 over two hands; unwind 130", assume=S5NOTE, draws="(r,s)*8, then T"),
+]
+TABLE["C02"] = C02_ABS + C02_HIST + C02_REPEAT + C02_REAL
 PROPERTY_META["C02"] = {
     "claim": "six/seven value == min over ALL five-card subsets (enumerated by bit masks, independent of the repository's row tables) of the five-card value, for every slot order, "
              "for every evaluator with the S5 facts; by C01 (real value = rule-derived ordinal) this is 'equals a direct rule-based evaluation'. Real-evaluator family: royal flush on every slot mask.",
     "outside": "the real evaluator inside the 21-way minimisation is abstracted (S5) except on the royal-mask family; a defect that only shows for specific real values and not for the abstraction cannot exist (the abstraction is more general)",
     "assumptions": COMMON_ASSUME + S5NOTE,
 }
-TABLE["C03"] = C02_ABS + C02_REAL + [
+TABLE["C03"] = C02_ABS + C02_REPEAT + C02_REAL + [
     H("c05_five_total", solver="kissat", timeout=1800, functions=EVAL, domain="five slots over " + CARDBLANK + ": reported hand == input (identity clause, real evaluator)", bound="whole domain; unwind 14", draws="(r,s)*5"),
 ]
 PROPERTY_META["C03"] = {
